@@ -333,6 +333,110 @@ def c16_shell(ctx):
     ctx.ob("R16.3", "windows:SHELL=[cmd.exe,/c]", v == ["cmd.exe", "/c"], "", "windows SHELL constant = %s" % (v,))
 
 
+def ascii_upper_map(cf):
+    """Is the unit-mapping closure `|c| ...` ASCII upper-casing?  Interval analysis over its (loop-free) body: every path refines the range
+    of c through the comparisons with constants it passes; the value returned at the end of the path must be c - 32 (written as c - 32,
+    c & !0x20 or c ^ 0x20: the same on 'a'..='z') only when the range lies within 'a'..='z', c itself only when the range misses 'a'..='z',
+    and the standard to_ascii_uppercase of `c as u8 as char` only when the range fits a byte."""
+    T = M.Terms(cf)
+    c = ("param", 2, cf.local_name(2))
+    isc = lambda t: M.noref(t) == c or (M.noref(t)[0] == "cast" and M.noref(M.noref(t)[2]) == c)
+    FLIP = {"Lt": "Gt", "Le": "Ge", "Gt": "Lt", "Ge": "Le", "Eq": "Eq", "Ne": "Ne"}
+    NEG = {"Lt": "Ge", "Le": "Gt", "Gt": "Le", "Ge": "Lt", "Eq": "Ne", "Ne": "Eq"}
+
+    def refine(iv, op, k):
+        lo, hi = iv
+        if op == "Lt":
+            hi = min(hi, k - 1)
+        elif op == "Le":
+            hi = min(hi, k)
+        elif op == "Gt":
+            lo = max(lo, k + 1)
+        elif op == "Ge":
+            lo = max(lo, k)
+        elif op == "Eq":
+            lo, hi = max(lo, k), min(hi, k)
+        return (lo, hi)
+
+    def transform(t):
+        t = M.noref(t)
+        while t[0] == "cast":
+            inner = M.noref(t[2])
+            if inner == c:
+                return "id"
+            t = inner
+        if t == c:
+            return "id"
+        if t[0] == "field" and t[2] == "0" and t[1][0] == "bin":
+            t = t[1]
+        if t[0] == "bin" and isc(t[2]):
+            k = t[3]
+            kv = const_of(k)
+            if kv is None and k[0] == "un" and k[1] == "Not" and const_of(k[2]) is not None:
+                kv = 0xFFFF & ~const_of(k[2])
+            if (t[1] == "BitAnd" and kv == 0xFFDF) or (t[1] in ("Sub", "SubWithOverflow") and kv == 32) or (t[1] == "BitXor" and kv == 32):
+                return "up"
+        if t[0] == "call" and t[1].endswith("to_ascii_uppercase") and all(l_ == c or l_[0] == "const" for l_ in M.leaves(t)):
+            return "std"
+        return "? " + M.term_str(t)[:60]
+
+    pieces = []
+    bad = []
+
+    def walk(bb, iv, val, depth):
+        if depth > 64:
+            bad.append("path too long")
+            return
+        if iv[0] > iv[1]:
+            return
+        b = cf.blocks[bb]
+        for s_ in b["stmts"]:
+            if s_["k"] == "assign" and s_["p"]["l"] == 0 and not s_["p"]["proj"]:
+                val = transform(T.rvalue(s_["r"]))
+        t = b["term"]
+        if t["k"] == "call" and t["dest"]["l"] == 0 and not t["dest"]["proj"]:
+            val = transform(("call", M.callee_str(t["f"]), tuple(T.operand(a_) for a_ in t["args"]), bb))
+        if t["k"] == "return":
+            pieces.append((iv, val))
+            return
+        if t["k"] == "switch":
+            sw = M.switch_term(cf, T, bb)
+            if sw[0] == "bin" and sw[1] in FLIP:
+                op, k = None, None
+                if isc(sw[2]) and const_of(sw[3]) is not None:
+                    op, k = sw[1], const_of(sw[3])
+                elif isc(sw[3]) and const_of(sw[2]) is not None:
+                    op, k = FLIP[sw[1]], const_of(sw[2])
+                if op is not None:
+                    walk(M.switch_target(t, 1), refine(iv, op, k) if op != "Ne" else iv, val, depth + 1)
+                    walk(M.switch_target(t, 0), refine(iv, NEG[op], k) if NEG[op] != "Ne" else iv, val, depth + 1)
+                    return
+            if isc(sw):
+                vals = [v_ for v_, _ in t["targets"]]
+                for v_, tgt in t["targets"]:
+                    walk(tgt, refine(iv, "Eq", v_), val, depth + 1)
+                walk(t["otherwise"], iv, val, depth + 1)
+                return
+        for s2 in cf.succs(bb):
+            walk(s2, iv, val, depth + 1)
+    if M.sccs(cf):
+        return False, "the mapping closure has a loop"
+    walk(0, (0, 0xFFFF), None, 0)
+    A, Z = 97, 122
+    for (lo, hi), val in pieces:
+        if val == "up" and not (A <= lo and hi <= Z):
+            bad.append("units %d..%d are lowered by 32, not only 'a'..='z'" % (lo, hi))
+        elif val == "id" and not (hi < A or lo > Z):
+            bad.append("units %d..%d (overlapping 'a'..='z') are left as they are" % (lo, hi))
+        elif val == "std" and hi > 0xFF:
+            bad.append("units %d..%d are truncated to a byte before to_ascii_uppercase" % (lo, hi))
+        elif val not in ("up", "id", "std"):
+            bad.append("units %d..%d map to %s" % (lo, hi, val))
+    if not pieces:
+        bad.append("no return path")
+    return (not bad), ("; ".join(bad[:3]) if bad else "pieces %s" % sorted(pieces))
+
+
 def c06_env_block(ctx):
     """R06.9: the Windows environment block — for every kept (name, value) pair, in order: name, '=', value, NUL; one more NUL at the
     end; duplicates removed case-insensitively in favour of the later entry (same idiom contradiction rule as R06.6)"""
@@ -403,10 +507,10 @@ def c06_env_block(ctx):
     if up is not None:
         cl = [f for p, f in prog.fns.items() if p.startswith("popen::os::format_env_block::to_uppercase::{closure")]
         okf = False
+        why = "expected one mapping closure, found %d" % len(cl)
         if len(cl) == 1:
-            calls = [M.callee_str(t["f"]) for _, t in cl[0].calls()]
-            okf = any(n.endswith("to_ascii_uppercase") for n in calls)
-        ctx.ob("R06.9", "key-folding=ascii-uppercase", okf, up.loc(0), "names are compared after ASCII upper-casing")
+            okf, why = ascii_upper_map(cl[0])
+        ctx.ob("R06.9", "key-folding=ascii-uppercase", okf, up.loc(0), "names are compared after ASCII upper-casing: %s" % why)
     # the environment is checked for NUL before the block is built (a NUL would end a variable, or the block, early and let the rest
     # of the value define further variables): the Windows sibling of CVec::new's check (R06.2)
     oss = [f for p_, f in prog.fns.items() if p_.endswith("os_start")]
